@@ -6,18 +6,24 @@ Local Open Scope Z_scope.
 (* ------------------------------------------------------------------ generic list / fold facts *)
 Lemma fold_left_hit {A B} (Inv P : A -> Prop) (f : A -> B -> A) (l : list B) (a : A) (x : B) :
   In x l -> Inv a ->
-  (forall a y, Inv a -> Inv (f a y)) ->
+  (forall a y, In y l -> Inv a -> Inv (f a y)) ->
   (forall a, Inv a -> P (f a x)) ->
-  (forall a y, Inv a -> P a -> P (f a y)) ->
+  (forall a y, In y l -> Inv a -> P a -> P (f a y)) ->
   P (fold_left f l a).
 Proof.
   intros Hin Ha Hinv Hx Hp.
-  assert (G : forall l a, Inv a -> P a -> P (fold_left f l a) /\ Inv (fold_left f l a)).
-  { induction l0 as [|y l0 IH]; intros a0 I0 P0; simpl; auto. }
-  revert a Ha. induction l as [|y l IH]; intros a Ha; [destruct Hin|].
-  simpl. destruct Hin as [->|Hin].
-  - apply G; auto.
-  - apply IH; auto.
+  assert (G : forall l0 a0, incl l0 l -> Inv a0 -> (In x l0 \/ P a0) -> P (fold_left f l0 a0)).
+  { induction l0 as [|y l0 IH]; intros a0 Hincl I0 Hor; simpl.
+    - destruct Hor as [[]|Hor]; exact Hor.
+    - assert (Hy : In y l) by (apply Hincl; left; reflexivity).
+      apply IH.
+      + intros z Hz. apply Hincl. right; exact Hz.
+      + apply Hinv; assumption.
+      + destruct Hor as [[->|Hor]|Hor].
+        * right. apply Hx; assumption.
+        * left; exact Hor.
+        * right. apply Hp; assumption. }
+  apply G; auto. apply incl_refl.
 Qed.
 
 Lemma fold_left_inv2 {A B} (Inv : A -> Prop) (f : A -> B -> A) (l : list B) (a : A) :
@@ -1073,4 +1079,850 @@ Section Sim.
     - intros a eid Hin (Ra & Ga). split.
       + apply Rinv_redirect_step; [exact Ra|]. pose proof (gr_edges_len _ _ Ga). specialize (Hall eid Hin). lia.
       + eapply gr_trans; [exact Ga|apply gr_redirect_step].
+  Qed.
+
+  Lemma redirect_step_track merged mid (b : mdd) eid0 ds0 t s0 d0 :
+    mid < length (m_nodes b) -> eid0 < length (m_edges b) ->
+    dpath b 0 0 rs ds0 t s0 -> In t (nth (length ds0) (m_layers b) []) ->
+    e_from (get_edge b eid0) = t -> e_dec (get_edge b eid0) = d0 ->
+    (transition_cost pb s0 (transition pb s0 d0) d0 <= e_cost (get_edge b eid0))%Z ->
+    cov (n_state (gn b mid)) (transition pb s0 d0) ->
+    dpath (redirect_step inp merged mid b eid0) 0 0 rs (ds0 ++ [d0]) mid (transition pb s0 d0).
+  Proof.
+    intros Hmid He Hp Hlay Hf Hd Hcost Hcov.
+    pose proof (gr_redirect_step merged mid b eid0) as G.
+    set (b' := redirect_step inp merged mid b eid0) in *.
+    set (e := get_edge b eid0) in *.
+    set (rc := relax (ci_relax inp) (n_state (gn b (e_from e))) (n_state (gn b (e_to e))) merged (e_dec e) (e_cost e)).
+    set (e' := {| e_from := e_from e; e_to := mid; e_dec := e_dec e; e_cost := rc |}).
+    assert (Hb' : b' = append_edge inp (add_log b (EvRelax (n_state (gn b (e_from e))) (n_state (gn b (e_to e)))
+                                  merged (e_dec e) (e_cost e) rc)) e') by reflexivity.
+    assert (Hedges : m_edges b' = m_edges b ++ [e']) by (rewrite Hb'; reflexivity).
+    assert (Hnew : get_edge b' (length (m_edges b)) = e') by (apply (ge_snoc_new b b' e' Hedges)).
+    apply (dp_snoc b' 0 0 rs ds0 t s0 d0 (length (m_edges b)) mid).
+    - eapply dpath_gr; eauto.
+    - rewrite (gr_layers _ _ G). exact Hlay.
+    - pose proof (gr_nodes _ _ G). lia.
+    - rewrite Hedges, app_length. simpl. lia.
+    - rewrite Hb'. change mid with (e_to e') at 1. rewrite gn_append_same by exact Hmid.
+      cbv zeta. nsimpl. left; reflexivity.
+    - rewrite Hnew. exact Hf.
+    - rewrite Hnew. exact Hd.
+    - rewrite Hnew. unfold e'. nsimpl. unfold rc. fold rlx.
+      eapply Z.le_trans; [exact Hcost|apply relax_ge].
+    - rewrite (gr_state _ _ mid G Hmid). exact Hcov.
+  Qed.
+
+  Lemma drop_fold_track merged mid mrg (m2 : mdd) :
+    Rinv mid m2 -> (forall x, In x mrg -> x < length (m_nodes m2)) ->
+    let m3 := fold_left (drop_step inp merged mid) mrg m2 in
+    Rinv mid m3 /\ gr m2 m3 /\
+    forall u ds0 d0 t s0 eid0, In u mrg -> In eid0 (n_inb (gn m2 u)) ->
+      dpath m2 0 0 rs ds0 t s0 -> In t (nth (length ds0) (m_layers m2) []) ->
+      e_from (get_edge m2 eid0) = t -> e_dec (get_edge m2 eid0) = d0 ->
+      (transition_cost pb s0 (transition pb s0 d0) d0 <= e_cost (get_edge m2 eid0))%Z ->
+      cov (n_state (gn m2 mid)) (transition pb s0 d0) ->
+      dpath m3 0 0 rs (ds0 ++ [d0]) mid (transition pb s0 d0).
+  Proof.
+    intros HR Hmrg. cbv zeta.
+    assert (Hstep : forall b x, In x mrg -> Rinv mid b /\ gr m2 b ->
+               Rinv mid (drop_step inp merged mid b x) /\ gr m2 (drop_step inp merged mid b x)).
+    { intros b x Hx (Rb & Gb). split.
+      - apply Rinv_drop_step; [exact Rb|]. pose proof (gr_nodes _ _ Gb). specialize (Hmrg x Hx). lia.
+      - eapply gr_trans; [exact Gb|apply gr_drop_step]. }
+    assert (Hall : Rinv mid (fold_left (drop_step inp merged mid) mrg m2) /\
+                   gr m2 (fold_left (drop_step inp merged mid) mrg m2)).
+    { apply (fold_left_inv (fun b => Rinv mid b /\ gr m2 b)); [split; [exact HR|apply gr_refl]|].
+      intros b x Hx Hb. apply Hstep; assumption. }
+    destruct Hall as [A1 A2]. split; [exact A1|]. split; [exact A2|].
+    intros u ds0 d0 t s0 eid0 Hu Hin Hp Hlay Hf Hd Hcost Hcov.
+    assert (Hmid2 : mid < length (m_nodes m2)) by apply HR.
+    assert (Hu2 : u < length (m_nodes m2)) by (apply Hmrg; exact Hu).
+    assert (He2 : eid0 < length (m_edges m2)).
+    { destruct HR as (HE & _). apply (E_inb _ HE u eid0 Hu2 Hin). }
+    set (P := fun b : mdd => dpath b 0 0 rs (ds0 ++ [d0]) mid (transition pb s0 d0)).
+    apply (fold_left_hit (fun b => Rinv mid b /\ gr m2 b) P (drop_step inp merged mid) mrg m2 u Hu).
+    - split; [exact HR|apply gr_refl].
+    - intros b y Hy Hb. apply Hstep; assumption.
+    - intros b (Rb & Gb). unfold drop_step. rewrite redirect_edges_fold.
+      set (b1 := upd_node b u (fun n => set_flags n (fl_set_deleted (n_flags n) true))).
+      assert (HR1 : Rinv mid b1) by (apply (Rinv_upd_flag mid b u (fun n => fl_set_deleted (n_flags n) true)); auto).
+      assert (G1 : gr m2 b1).
+      { eapply gr_trans; [exact Gb|]. unfold b1. apply gr_upd_node; intros; reflexivity. }
+      assert (Hu1 : u < length (m_nodes b1)) by (pose proof (gr_nodes _ _ G1); lia).
+      assert (Hin1 : In eid0 (n_inb (gn b1 u))) by (destruct G1 as [_ I1]; apply I1; exact Hin).
+      assert (Hall1 : forall eid, In eid (n_inb (gn b1 u)) -> eid < length (m_edges b1)).
+      { intros eid Hi. destruct HR1 as (HE1 & _). apply (E_inb _ HE1 u eid Hu1 Hi). }
+      apply (fold_left_hit (fun c => Rinv mid c /\ gr b1 c) P (redirect_step inp merged mid)
+               (n_inb (gn b1 u)) b1 eid0 Hin1).
+      + split; [exact HR1|apply gr_refl].
+      + intros c y Hy (Rc & Gc). split.
+        * apply Rinv_redirect_step; [exact Rc|]. pose proof (gr_edges_len _ _ Gc). specialize (Hall1 y Hy). lia.
+        * eapply gr_trans; [exact Gc|apply gr_redirect_step].
+      + intros c (Rc & Gc). assert (G2c : gr m2 c) by (eapply gr_trans; eauto).
+        apply (redirect_step_track merged mid c eid0 ds0 t s0 d0).
+        * apply Rc.
+        * pose proof (gr_edges_len _ _ G2c). lia.
+        * eapply dpath_gr; eauto.
+        * rewrite (gr_layers _ _ G2c). exact Hlay.
+        * rewrite (gr_edge _ _ eid0 G2c He2). exact Hf.
+        * rewrite (gr_edge _ _ eid0 G2c He2). exact Hd.
+        * rewrite (gr_edge _ _ eid0 G2c He2). exact Hcost.
+        * rewrite (gr_state _ _ mid G2c Hmid2). exact Hcov.
+      + intros c y Hy (Rc & Gc) Pc. unfold P in *. eapply dpath_gr; [apply gr_redirect_step|exact Pc].
+    - intros b y Hy (Rb & Gb) Pb. unfold P in *. eapply dpath_gr; [apply gr_drop_step|exact Pb].
+  Qed.
+
+  Lemma dpath_snoc_inv m i u s ds t' s'' :
+    dpath m i u s ds t' s'' -> ds <> [] ->
+    exists ds0 d0 t s0 eid0, ds = ds0 ++ [d0] /\ s'' = transition pb s0 d0 /\
+      dpath m i u s ds0 t s0 /\ In t (nth (i + length ds0) (m_layers m) []) /\
+      t' < length (m_nodes m) /\ eid0 < length (m_edges m) /\ In eid0 (n_inb (gn m t')) /\
+      e_from (get_edge m eid0) = t /\ e_dec (get_edge m eid0) = d0 /\
+      (transition_cost pb s0 (transition pb s0 d0) d0 <= e_cost (get_edge m eid0))%Z /\
+      cov (n_state (gn m t')) (transition pb s0 d0).
+  Proof.
+    intros Hp Hne. destruct Hp as [i u s Hu Hc|i u s ds t s' d eid t' Hp Hlay Ht' He Hin Hf Hd Hcost Hcov].
+    - congruence.
+    - exists ds, d, t, s', eid. repeat split; auto.
+  Qed.
+
+  Lemma is_exact_set_relaxed (n : node) : fl_is_exact (n_flags (set_relaxed_flag n)) = false.
+  Proof. unfold set_relaxed_flag, fl_is_exact. nsimpl. apply andb_false_r. Qed.
+
+  Lemma relax_layer_sim (m : mdd) l dd :
+    Dinv inp m -> Einv m -> layer_ok inp m l dd -> ci_width inp < length l ->
+    Einv (fst (relax_layer st_eqb inp m l)) /\ gr m (fst (relax_layer st_eqb inp m l)) /\
+    forall u ds s', In u l -> ds <> [] -> dpath m 0 0 rs ds u s' ->
+      exists u', In u' (snd (relax_layer st_eqb inp m l)) /\
+                 dpath (fst (relax_layer st_eqb inp m l)) 0 0 rs ds u' s'.
+  Proof.
+    intros HD HE Hl Hw.
+    assert (Hex : exists w1, ci_width inp = S w1) by (exists (ci_width inp - 1); lia).
+    destruct Hex as [w1 Ew]. rewrite Ew in Hw.
+    rewrite (relax_layer_unfold st_eqb inp m l w1 Ew). cbv zeta.
+    destruct (note_squash_fields inp Hclean m) as (F1 & F2 & F3 & F4 & F5 & F6 & F7 & F8 & F9).
+    set (m0 := note_squash inp m) in *.
+    assert (Hgn0 : forall k, gn m0 k = gn m k) by (intros k; apply gn_nodes_eq; exact F1).
+    assert (G0 : gr m m0) by (split; [apply ext_note_squash|apply inbinc_same_nodes; exact F1]).
+    assert (HE0 : Einv m0).
+    { eapply Einv_frame; [exact F1|exact F2| | |exact HE]; [lia|]. rewrite F5, F1. apply (E_le _ HE). }
+    set (sorted := sort_by (rank_order inp m0) l).
+    assert (Hsorted : forall x, In x sorted <-> In x l) by (intros x; apply sort_by_In).
+    set (keep := firstn w1 sorted). set (mrg := skipn w1 sorted).
+    assert (Hsplit : sorted = keep ++ mrg) by (symmetry; apply firstn_skipn).
+    set (mstates := map (fun id => n_state (gn m0 id)) mrg).
+    set (merged := merge (ci_relax inp) mstates).
+    set (m1 := add_log m0 (EvMerge mstates merged)).
+    assert (G1 : gr m m1) by (eapply gr_trans; [exact G0|apply gr_add_log]).
+    assert (HE1 : Einv m1).
+    { eapply Einv_frame; [| | | |exact HE0]; try reflexivity. apply (E_le _ HE0). }
+    assert (Hl1 : forall x, In x l -> m_layer_end m1 <= x < length (m_nodes m1)).
+    { intros x Hx. destruct (Hl x Hx) as [Hr _]. change (m_layer_end m1) with (m_layer_end m0).
+      change (length (m_nodes m1)) with (length (m_nodes m0)). rewrite F5, F1. exact Hr. }
+    assert (Hkeep : forall x, In x keep -> In x l).
+    { intros x Hx. apply Hsorted. rewrite Hsplit. apply in_or_app; left; exact Hx. }
+    assert (Hmrg : forall x, In x mrg -> In x l).
+    { intros x Hx. apply Hsorted. rewrite Hsplit. apply in_or_app; right; exact Hx. }
+    (* the common argument once the merged node [mid] is in place in [m2] *)
+    assert (Core : forall (m2 : mdd) mid, gr m m2 -> Rinv mid m2 -> n_state (gn m2 mid) = merged ->
+              length (m_nodes m1) <= length (m_nodes m2) ->
+              let m3 := fold_left (drop_step inp merged mid) mrg m2 in
+              Einv m3 /\ gr m m3 /\
+              forall u ds s', In u mrg -> ds <> [] -> dpath m 0 0 rs ds u s' -> dpath m3 0 0 rs ds mid s').
+    { intros m2 mid G2 R2 Hst Hlen. cbv zeta.
+      destruct (drop_fold_track merged mid mrg m2 R2) as (T1 & T2 & T3).
+      { intros x Hx. apply Hmrg in Hx. apply Hl1 in Hx. lia. }
+      split; [apply T1|]. split; [eapply gr_trans; eauto|].
+      intros u ds s' Hu Hne Hp.
+      destruct (dpath_snoc_inv _ _ _ _ _ _ _ Hp Hne) as (ds0 & d0 & t & s0 & eid0 & -> & -> & P0 & P1 & P2 & P3 & P4 & P5 & P6 & P7 & P8).
+      apply (T3 u ds0 d0 t s0 eid0 Hu).
+      - destruct G2 as [_ I2]. apply I2. exact P4.
+      - eapply dpath_gr; eauto.
+      - rewrite (gr_layers _ _ G2). exact P1.
+      - rewrite (gr_edge _ _ eid0 G2 P3). exact P5.
+      - rewrite (gr_edge _ _ eid0 G2 P3). exact P6.
+      - rewrite (gr_edge _ _ eid0 G2 P3). exact P7.
+      - rewrite Hst. unfold merged. fold rlx. apply (merge_cov mstates (n_state (gn m u))).
+        + unfold mstates. rewrite <- Hgn0. apply (in_map (fun id => n_state (gn m0 id))). exact Hu.
+        + exact P8. }
+    destruct (find (fun id => st_eqb (n_state (gn m1 id)) merged) keep) as [rid|] eqn:Hrec.
+    - (* recycled *)
+      apply find_some in Hrec. destruct Hrec as [Hin Heq]. apply st_eqb_spec in Heq.
+      pose proof (Hl1 rid (Hkeep rid Hin)) as Hr.
+      set (m2 := upd_node m1 rid set_relaxed_flag).
+      assert (G12 : gr m1 m2) by (unfold m2; apply gr_upd_node; intros; reflexivity).
+      assert (HE2 : Einv m2).
+      { unfold m2. apply Einv_upd_open; [exact HE1|lia|]. intros n.
+        repeat split; auto. rewrite is_exact_set_relaxed. discriminate. }
+      assert (R2 : Rinv rid m2).
+      { split; [exact HE2|]. split; [change (m_layer_end m2) with (m_layer_end m1); lia|].
+        split; [unfold m2; msimpl; rewrite upd_nth_length; lia|].
+        unfold m2. rewrite gn_upd_same by lia. reflexivity. }
+      destruct (Core m2 rid) as (C1 & C2 & C3).
+      { eapply gr_trans; eauto. } { exact R2. }
+      { unfold m2. rewrite gn_upd_same by lia. exact Heq. }
+      { unfold m2. msimpl. rewrite upd_nth_length. lia. }
+      cbv zeta in C1, C2, C3.
+      set (m3 := fold_left (drop_step inp merged rid) mrg m2) in *.
+      cbn [fst snd].
+      set (m4 := upd_node m3 (nth w1 sorted 0) clear_deleted_flag).
+      assert (Hc4 : ceq inp m3 m4).
+      { unfold m4. apply ceq_upd_node. intros n. apply core_eq_set_flags_nc; reflexivity. }
+      assert (G34 : gr m3 m4) by (unfold m4; apply gr_upd_node; intros; reflexivity).
+      split; [eapply Einv_ceq; eauto|]. split; [eapply gr_trans; eauto|].
+      intros u ds s' Hu Hne Hp. apply Hsorted in Hu. rewrite Hsplit in Hu. apply in_app_or in Hu.
+      destruct Hu as [Hu|Hu].
+      + exists u. split.
+        * assert (Hfs : firstn (S w1) sorted = firstn (S w1) (keep ++ mrg)) by (rewrite <- Hsplit; reflexivity).
+          rewrite Hfs. rewrite firstn_app. apply in_or_app. left.
+          rewrite firstn_all2; [exact Hu|]. unfold keep. rewrite firstn_length. lia.
+        * eapply dpath_gr; [|exact Hp]. eapply gr_trans; eauto.
+      + exists rid. split.
+        * assert (Hfs : firstn (S w1) sorted = firstn (S w1) (keep ++ mrg)) by (rewrite <- Hsplit; reflexivity).
+          rewrite Hfs. rewrite firstn_app. apply in_or_app. left.
+          rewrite firstn_all2; [exact Hin|]. unfold keep. rewrite firstn_length. lia.
+        * eapply dpath_gr; [exact G34|]. apply (C3 u); auto.
+    - (* fresh merged node *)
+      set (mid := length (m_nodes m1)).
+      set (n := merged_node merged (n_depth (gn m1 (hd 0 mrg)))).
+      set (m1' := with_nodes m1 (m_nodes m1 ++ [n])).
+      set (m2 := upd_node m1' mid set_relaxed_flag).
+      assert (Hlen1' : length (m_nodes m1') = S mid) by apply len_snoc.
+      assert (G11' : gr m1 m1') by apply gr_snoc.
+      assert (G12 : gr m1' m2) by (unfold m2; apply gr_upd_node; intros; reflexivity).
+      assert (HE1' : Einv m1') by (apply Einv_snoc; [exact HE1|reflexivity]).
+      pose proof (E_le _ HE1) as Hle1.
+      assert (HE2 : Einv m2).
+      { unfold m2. apply Einv_upd_open; [exact HE1'|exact Hle1|]. intros n0.
+        repeat split; auto. rewrite is_exact_set_relaxed. discriminate. }
+      assert (R2 : Rinv mid m2).
+      { split; [exact HE2|]. split; [exact Hle1|].
+        split; [unfold m2; msimpl; rewrite upd_nth_length; fold m1'; lia|].
+        unfold m2. rewrite gn_upd_same by lia. reflexivity. }
+      destruct (Core m2 mid) as (C1 & C2 & C3).
+      { eapply gr_trans; [exact G1|]. eapply gr_trans; eauto. } { exact R2. }
+      { unfold m2. rewrite gn_upd_same by lia. unfold m1', mid. rewrite gn_snoc_new. reflexivity. }
+      { unfold m2. msimpl. rewrite upd_nth_length. fold m1'. lia. }
+      cbv zeta in C1, C2, C3. cbn [fst snd].
+      split; [exact C1|]. split; [exact C2|].
+      intros u ds s' Hu Hne Hp. apply Hsorted in Hu. rewrite Hsplit in Hu. apply in_app_or in Hu.
+      destruct Hu as [Hu|Hu].
+      + exists u. split; [apply in_or_app; left; exact Hu|]. eapply dpath_gr; eauto.
+      + exists mid. split; [apply in_or_app; right; left; reflexivity|]. apply (C3 u); auto.
+  Qed.
+
+  (* ---------------------------------------------------------------- 2i. squash_if_needed *)
+  Definition enabled (m : mdd) : Prop := ci_type inp = Restricted -> m_lel m = None.
+
+  Lemma append_edge_lel (m : mdd) e : m_lel (append_edge inp m e) = m_lel m.
+  Proof. reflexivity. Qed.
+  Lemma branch_on_lel (m : mdd) id d : m_lel (branch_on st_eqb inp m id d) = m_lel m.
+  Proof.
+    unfold branch_on. cbv zeta.
+    match goal with |- context [find_next ?a ?b ?c ?d] => destruct (find_next a b c d) end; reflexivity.
+  Qed.
+  Lemma expand_node_lel var (m : mdd) id : m_lel (expand_node st_eqb inp var m id) = m_lel m.
+  Proof.
+    unfold expand_node. cbv zeta. destruct (_ >? _)%Z; [|reflexivity].
+    rewrite (fold_left_proj (fun a : mdd => m_lel a)); [reflexivity|]. intros a x. apply branch_on_lel.
+  Qed.
+  Lemma expand_layer_lel var l (m : mdd) : m_lel (fold_left (expand_node st_eqb inp var) l m) = m_lel m.
+  Proof. apply (fold_left_proj (fun a : mdd => m_lel a)). intros a x. apply expand_node_lel. Qed.
+
+  Lemma squash_sim (mc : mdd) lc dd :
+    Dinv inp mc -> Xinv inp mc -> Einv mc -> layer_ok inp mc lc dd ->
+    Einv (fst (squash_if_needed st_eqb inp mc lc)) /\ gr mc (fst (squash_if_needed st_eqb inp mc lc)) /\
+    (enabled (fst (squash_if_needed st_eqb inp mc lc)) -> enabled mc) /\
+    forall u ds s', In u lc -> (1 < length (m_layers mc) -> ds <> []) ->
+      enabled (fst (squash_if_needed st_eqb inp mc lc)) -> dpath mc 0 0 rs ds u s' ->
+      exists u', In u' (snd (squash_if_needed st_eqb inp mc lc)) /\
+                 dpath (fst (squash_if_needed st_eqb inp mc lc)) 0 0 rs ds u' s'.
+  Proof.
+    intros HD HX HE Hl. unfold squash_if_needed.
+    assert (Htriv : Einv mc /\ gr mc mc /\ (enabled mc -> enabled mc) /\
+              forall u ds s', In u lc -> (1 < length (m_layers mc) -> ds <> []) -> enabled mc ->
+                dpath mc 0 0 rs ds u s' -> exists u', In u' lc /\ dpath mc 0 0 rs ds u' s').
+    { split; [exact HE|]. split; [apply gr_refl|]. split; [auto|]. intros u ds s' Hu _ _ Hp. exists u; auto. }
+    destruct (ci_type inp) eqn:Et.
+    - exact Htriv.
+    - destruct (Nat.ltb (ci_width inp) (length lc) && Nat.ltb 1 (length (m_layers mc))) eqn:Eg; [|exact Htriv].
+      apply andb_true_iff in Eg. destruct Eg as [E1 E2].
+      apply Nat.ltb_lt in E1. apply Nat.ltb_lt in E2.
+      destruct (relax_layer_sim mc lc dd HD HE Hl E1) as (R1 & R2 & R3).
+      split; [exact R1|]. split; [exact R2|]. split.
+      + intros _ Ht. rewrite Et in Ht. discriminate.
+      + intros u ds s' Hu Hne _ Hp. apply (R3 u); auto.
+    - destruct (Nat.ltb (ci_width inp) (length lc)) eqn:Eg; [|exact Htriv].
+      unfold restrict_layer. cbv zeta. cbn [fst snd].
+      destruct (note_squash_fields inp Hclean mc) as (F1 & F2 & F3 & F4 & F5 & F6 & F7 & F8 & F9).
+      set (m0 := note_squash inp mc) in *.
+      assert (G0 : gr mc m0) by (split; [apply ext_note_squash|apply inbinc_same_nodes; exact F1]).
+      assert (HE0 : Einv m0).
+      { eapply Einv_frame; [exact F1|exact F2| | |exact HE]; [lia|]. rewrite F5, F1. apply (E_le _ HE). }
+      set (ids := skipn (ci_width inp) (sort_by (rank_order inp m0) lc)).
+      pose proof (mark_deleted_ceq inp ids m0) as Hc.
+      assert (Hlel : m_lel (mark_deleted m0 ids) <> None).
+      { destruct Hc as (_ & _ & _ & _ & Hlel & _). rewrite Hlel, F8. destruct (m_lel mc); discriminate. }
+      split; [eapply Einv_ceq; eauto|]. split.
+      { eapply gr_trans; [exact G0|]. apply gr_ceq; [exact Hc|apply ext_mark_deleted]. }
+      split.
+      + intros Hen. exfalso. apply Hlel. apply Hen. exact Et.
+      + intros u ds s' _ _ Hen. exfalso. apply Hlel. apply Hen. exact Et.
+  Qed.
+
+  (* ---------------------------------------------------------------- 2j. _move_to_next_layer *)
+  Lemma dpath_ceq m m' i u s ds t s' : ceq inp m m' -> dpath m i u s ds t s' -> dpath m' i u s ds t s'.
+  Proof.
+    intros (Hp & _ & _ & Hl & _) H. eapply dpath_peq; eauto. intros k x. rewrite Hl. auto.
+  Qed.
+
+  Lemma move_sim (m : mdd) d :
+    Cinv d m -> m_next m <> [] ->
+    exists m3 l ids, move_to_next_layer_clean st_eqb inp m = (m3, Some l) /\
+      Cinv (S d) m3 /\ m_next m3 = [] /\
+      (forall id, In id l -> id < m_layer_end m3 /\ n_depth (gn m3 id) = d) /\
+      m_curr_depth m3 = m_curr_depth m /\ m_layers m3 = m_layers m ++ [ids] /\
+      (forall id, In id l -> In id ids) /\
+      (enabled m3 -> enabled m) /\
+      forall u ds s', In u (m_next m) -> (1 < length (m_layers m) -> ds <> []) -> enabled m3 ->
+        dpath m 0 0 rs ds u s' -> exists u', In u' l /\ dpath m3 0 0 rs ds u' s'.
+  Proof.
+    intros (HD & HX & Hnd & HE) Hne.
+    rewrite move_clean_unfold.
+    destruct (m_next m) as [|c0 cs] eqn:En; [congruence|].
+    set (curr := c0 :: cs) in *.
+    set (ma := with_next m []).
+    assert (Hpa : peq inp m ma) by (apply peq_same_nodes; reflexivity).
+    assert (HDa : Dinv inp ma).
+    { eapply (Dg_peq inp Hclean); [exact Hpa|exact HD|apply Nat.le_refl|apply (D_le _ _ _ HD)|]. intros id []. }
+    assert (HXa : Xinv inp ma) by (eapply Xg_peq; [exact Hpa|reflexivity|reflexivity|reflexivity|exact HX]).
+    assert (HEa : Einv ma).
+    { eapply Einv_frame; [| | | |exact HE]; try reflexivity. apply (E_le _ HE). }
+    assert (Hla : layer_ok inp ma curr d).
+    { intros id Hid. rewrite <- En in Hid. split; [apply (D_next _ _ _ HD id Hid)|apply Hnd; exact Hid]. }
+    (* cache filter *)
+    assert (Hb : ceq inp ma (fst (prefilter st_eqb inp ma curr)) /\ snd (prefilter st_eqb inp ma curr) = curr).
+    { unfold prefilter. destruct (Nat.ltb 0 (length (m_layers ma))).
+      - split; [apply (filter_with_cache_ceq st_eqb inp Hclean curr ma)|apply filter_with_cache_nocache].
+      - split; [apply ceq_refl|reflexivity]. }
+    destruct (prefilter st_eqb inp ma curr) as [mb lb0]. cbn [fst snd] in Hb. destruct Hb as [Hcb ->].
+    (* dominance filter *)
+    pose proof (filter_with_dominance_ceq inp mb curr) as [Hcc _].
+    pose proof (filter_with_dominance_nodom mb curr) as Hlc.
+    destruct (filter_with_dominance inp mb curr) as [mc lc]. cbn [fst snd] in Hcc, Hlc.
+    assert (Hac : ceq inp ma mc) by (eapply ceq_trans; eauto).
+    assert (HDc : Dinv inp mc) by (eapply (Dg_ceq inp Hclean); eauto).
+    assert (HXc : Xinv inp mc) by (eapply Xinv_ceq; eauto).
+    assert (HEc : Einv mc) by (eapply Einv_ceq; eauto).
+    assert (Hlcl : layer_ok inp mc lc d).
+    { eapply layer_ok_stable; [apply ceq_stable; exact Hac|exact Hla|]. intros x Hx. apply Hlc. exact Hx. }
+    assert (Hnc : m_next mc = []) by (destruct Hac as (_ & Hn & _); rewrite Hn; reflexivity).
+    (* squash *)
+    destruct (squash_if_needed_inv st_eqb inp Hclean mc lc d HDc HXc Hlcl) as (Q1 & Q2 & Q3 & Q4 & Q5).
+    destruct (squash_sim mc lc d HDc HXc HEc Hlcl) as (S1 & S2 & S3 & S4).
+    destruct (squash_if_needed st_eqb inp mc lc) as [md ld]. cbn [fst snd] in *.
+    set (from := m_layer_end md). set (to := length (m_nodes md)).
+    assert (Hft : from <= to) by apply (D_le _ _ _ Q1).
+    set (m3 := push_layer md (seq from (to - from)) to).
+    assert (Hp : peq inp md m3) by (apply peq_same_nodes; reflexivity).
+    exists m3, ld, (seq from (to - from)).
+    split; [reflexivity|].
+    assert (Hlay3 : m_layers m3 = m_layers m ++ [seq from (to - from)]).
+    { unfold m3. msimpl. f_equal. rewrite (gr_layers _ _ S2).
+      destruct Hac as (_ & _ & _ & Hl & _). rewrite Hl. reflexivity. }
+    split; [|split; [|split; [|split; [|split; [|split; [|split]]]]]].
+    - split; [|split; [|split]].
+      + eapply (Dg_peq inp Hclean); [exact Hp|exact Q1|exact Hft|apply Nat.le_refl|].
+        intros id Hid. unfold m3 in Hid. msimpl_in Hid. rewrite Q4, Hnc in Hid. destruct Hid.
+      + apply Xg_push_layer.
+        * eapply Xg_weaken; [|exact Q2]. exact Hft.
+        * apply Nat.le_refl.
+        * intros id Hid. apply in_seq in Hid. unfold m3. msimpl. unfold from, to in *. lia.
+      + intros id Hid. unfold m3 in Hid. msimpl_in Hid. rewrite Q4, Hnc in Hid. destruct Hid.
+      + apply (Einv_frame md m3); [reflexivity|reflexivity|exact Hft|apply Nat.le_refl|exact S1].
+    - unfold m3. msimpl. rewrite Q4. exact Hnc.
+    - intros id Hid. destruct (Q5 id Hid) as [Hr Hdp]. unfold m3. msimpl. split; [unfold to; lia|exact Hdp].
+    - unfold m3. msimpl. destruct Q3 as (_ & _ & _ & _ & q5). rewrite q5.
+      destruct Hac as (_ & _ & _ & _ & _ & _ & a7). rewrite a7. reflexivity.
+    - exact Hlay3.
+    - intros id Hid. destruct (Q5 id Hid) as [Hr _]. apply in_seq. unfold from, to. lia.
+    - intros Hen. assert (Hmc : enabled mc) by (apply S3; exact Hen).
+      intros Ht. specialize (Hmc Ht). destruct Hac as (_ & _ & _ & _ & Hlel & _). rewrite Hlel in Hmc. exact Hmc.
+    - intros u ds s' Hu Hds Hen Hpth.
+      assert (Hpc : dpath mc 0 0 rs ds u s').
+      { eapply dpath_ceq; [exact Hac|]. eapply dpath_peq; [exact Hpa| |exact Hpth]. auto. }
+      destruct (S4 u ds s') as (u' & Hu' & Hp').
+      + apply Hlc. exact Hu.
+      + intros H1. apply Hds. destruct Hac as (_ & _ & _ & Hl & _). rewrite Hl in H1. exact H1.
+      + exact Hen.
+      + exact Hpc.
+      + exists u'. split; [exact Hu'|]. eapply dpath_peq; [exact Hp| |exact Hp'].
+        intros k x. unfold m3. msimpl. apply nth_layers_app.
+  Qed.
+
+  (* ---------------------------------------------------------------- 2k. the layer loop *)
+  Definition prom (ds : list decision) (sN : St) (w : Z) : Prop :=
+    frn rd rs rv ds = Some (sN, w) /\ rd + length ds = N /\ (lb < w)%Z.
+
+  Lemma firstn_S_skipn {A} j (l : list A) x r : skipn j l = x :: r -> firstn (S j) l = firstn j l ++ [x].
+  Proof.
+    revert l. induction j as [|j IH]; intros l H.
+    - simpl in H. subst l. reflexivity.
+    - destruct l as [|y l]; [discriminate|]. simpl in H. specialize (IH l H).
+      change (firstn (S (S j)) (y :: l)) with (y :: firstn (S j) l). rewrite IH. reflexivity.
+  Qed.
+
+  Lemma prom_prefix ds sN w j : prom ds sN w -> j < length ds ->
+    exists s1 v1 dj rest h, frn rd rs rv (firstn j ds) = Some (s1, v1) /\ skipn j ds = dj :: rest /\
+      var_ok pb (rd + j) dj = true /\ In (d_val dj) (domain pb (d_var dj) s1) /\
+      H pb (rd + j) s1 = Some h /\ (lb < v1 + h)%Z.
+  Proof.
+    intros (Hr & Hlen & Hlb) Hj.
+    assert (Hfl : length (firstn j ds) = j) by (rewrite firstn_length; lia).
+    rewrite <- (firstn_skipn j ds) in Hr. rewrite frun_app in Hr. rewrite Hfl in Hr.
+    destruct (frn rd rs rv (firstn j ds)) as [[s1 v1]|] eqn:E1; [|discriminate].
+    destruct (skipn j ds) as [|dj rest] eqn:Es.
+    { exfalso. pose proof (skipn_length j ds) as Hs. rewrite Es in Hs. simpl in Hs. lia. }
+    assert (Hsl : length (dj :: rest) = length ds - j) by (rewrite <- Es; apply skipn_length).
+    destruct (frun_le_H pb nv_static nv_none (dj :: rest) (rd + j) s1 v1 sN w) as (h & Hh & Hle); [lia|exact Hr|].
+    cbn [frun] in Hr. destruct (var_ok pb (rd + j) dj) eqn:Ev; [|discriminate].
+    destruct (in_domain pb s1 dj) eqn:Ed; [|discriminate].
+    exists s1, v1, dj, rest, h. repeat split; auto; [apply in_domain_In; exact Ed|lia].
+  Qed.
+
+  Definition Tinv (m : mdd) : Prop :=
+    forall ds sN w, prom ds sN w -> enabled m ->
+    exists u s', In u (m_next m) /\ dpath m 0 0 rs (firstn (m_curr_depth m - rd) ds) u s'.
+
+  Definition Linv (m : mdd) : Prop :=
+    Cinv (m_curr_depth m) m /\ rd <= m_curr_depth m /\ m_curr_depth m <= N /\
+    length (m_layers m) = m_curr_depth m - rd /\ Tinv m.
+
+  Definition Post (ml : mdd) : Prop :=
+    (forall u, In u (m_next ml) -> n_depth (gn ml u) = N) /\
+    forall ds sN w, prom ds sN w -> enabled ml ->
+      Einv ml /\ length (m_layers ml) = N - rd /\
+      exists u s', In u (m_next ml) /\ m_layer_end ml <= u < length (m_nodes ml) /\ dpath ml 0 0 rs ds u s'.
+
+  Lemma dpath_frame m m' i u s ds t s' :
+    m_nodes m' = m_nodes m -> m_edges m' = m_edges m -> m_layers m' = m_layers m ->
+    dpath m i u s ds t s' -> dpath m' i u s ds t s'.
+  Proof.
+    intros Hn He Hl Hp. eapply dpath_transport; eauto; try (rewrite ?Hn, ?He; lia).
+    - intros x _. rewrite (gn_nodes_eq inp m m' x Hn). reflexivity.
+    - intros x. rewrite (gn_nodes_eq inp m m' x Hn). apply incl_refl.
+    - intros eid _. apply ge_edges_eq. exact He.
+    - intros k x. rewrite Hl. auto.
+  Qed.
+
+  Lemma layer_loop_sim : forall fuel (m m' : mdd),
+    Linv m -> layer_loop st_eqb inp fuel m = (m', LoopDone) -> Post m'.
+  Proof.
+    induction fuel as [|fuel IH]; intros m m' HL Hloop; [simpl in Hloop; inversion Hloop|].
+    destruct HL as (HC & Hd1 & Hd2 & Hlen & HT).
+    set (d := m_curr_depth m) in *.
+    cbn [layer_loop] in Hloop. cbv zeta in Hloop.
+    set (states := map (fun id => n_state (gn m id)) (m_next m)) in *.
+    fold pb in Hloop.
+    destruct (next_variable pb (m_curr_depth m) states) as [var|] eqn:Eov.
+    2:{ (* the variables are exhausted *)
+      inversion Hloop; subst m'. clear Hloop.
+      assert (HdN : d = N).
+      { destruct (Nat.lt_ge_cases d N) as [Hlt|Hge]; [|lia].
+        destruct (nv_some d states Hlt) as [x Hx]. unfold d in Hx. rewrite Hx in Eov. discriminate. }
+      destruct HC as (HD & HX & Hnd & HE).
+      split.
+      - intros u Hu. change (n_depth (gn m u) = N). rewrite <- HdN. apply Hnd. exact Hu.
+      - intros ds sN w Hp Hen.
+        split; [eapply Einv_frame; [| | | |exact HE]; try reflexivity; apply (E_le _ HE)|].
+        split; [msimpl; rewrite Hlen; lia|].
+        destruct (HT ds sN w Hp Hen) as (u & s' & Hu & Hpth).
+        exists u, s'. split; [exact Hu|]. split; [apply (D_next _ _ _ HD u Hu)|].
+        destruct Hp as (_ & Hl & _).
+        rewrite firstn_all2 in Hpth by (fold d; lia).
+        eapply dpath_frame; [| | |exact Hpth]; reflexivity. }
+    set (m1 := add_log m (EvNextVar (m_curr_depth m) states (Some var))) in *.
+    set (m2 := with_polls m1 (S (m_polls m1))) in *.
+    rewrite Hnocut in Hloop. cbn [Nat.ltb Nat.leb andb] in Hloop.
+    rewrite (not_pooled inp Hclean) in Hloop.
+    assert (HdN : d < N).
+    { destruct (Nat.lt_ge_cases d N) as [Hlt|Hge]; [exact Hlt|].
+      pose proof (nv_none d states Hge) as Hn. unfold d in Hn. rewrite Hn in Eov. discriminate. }
+    assert (Hc2 : ceq inp m m2) by (eapply ceq_trans; [apply ceq_add_log|apply ceq_with_polls]).
+    assert (HC2 : Cinv d m2).
+    { destruct HC as (HD & HX & Hnd & HE).
+      split; [eapply (Dg_ceq inp Hclean); eauto|]. split; [eapply Xinv_ceq; eauto|]. split; [exact Hnd|].
+      eapply Einv_ceq; eauto. }
+    destruct (m_next m) as [|c0 cs] eqn:En.
+    - (* the next layer is empty: the loop stops *)
+      rewrite move_clean_unfold in Hloop. change (m_next m2) with (m_next m) in Hloop. rewrite En in Hloop.
+      inversion Hloop; subst m'. clear Hloop.
+      split; [intros u []|].
+      intros ds sN w Hp Hen. exfalso.
+      destruct (HT ds sN w Hp) as (u & s' & Hu & _); [exact Hen|]. rewrite En in Hu. destruct Hu.
+    - assert (Hne : m_next m2 <> []) by (change (m_next m2) with (m_next m); rewrite En; discriminate).
+      destruct (move_sim m2 d HC2 Hne) as (m3 & l & ids & Emv & C3 & N3 & L3 & D3 & Ly3 & Lids & En3 & T3).
+      rewrite Emv in Hloop.
+      destruct (expand_layer_Cinv var l d m3 C3 L3) as (C4 & S4 & G4).
+      { exists states. exact Eov. }
+      set (m4 := fold_left (expand_node st_eqb inp var) l m3) in *.
+      set (m5 := with_depth m4 (S (m_curr_depth m4))) in *.
+      assert (Hcd4 : m_curr_depth m4 = d).
+      { destruct S4 as (_ & _ & _ & _ & s5). rewrite s5, D3. reflexivity. }
+      apply (IH m5 m'); [|exact Hloop].
+      assert (Hp5 : peq inp m4 m5) by (apply peq_same_nodes; reflexivity).
+      assert (Hly4 : m_layers m4 = m_layers m ++ [ids]) by (rewrite (gr_layers _ _ G4); exact Ly3).
+      split; [|split; [|split; [|split]]].
+      + change (m_curr_depth m5) with (S (m_curr_depth m4)). rewrite Hcd4.
+        destruct C4 as (D4 & X4 & Nd4 & E4).
+        split; [|split; [|split]].
+        * eapply (Dg_peq inp Hclean); [exact Hp5|exact D4|apply Nat.le_refl|apply (D_le _ _ _ D4)|apply (D_next _ _ _ D4)].
+        * eapply Xg_peq; [exact Hp5|reflexivity|reflexivity|reflexivity|exact X4].
+        * exact Nd4.
+        * eapply Einv_frame; [| | | |exact E4]; try reflexivity. apply (E_le _ E4).
+      + change (m_curr_depth m5) with (S (m_curr_depth m4)). lia.
+      + change (m_curr_depth m5) with (S (m_curr_depth m4)). lia.
+      + change (m_curr_depth m5) with (S (m_curr_depth m4)). change (m_layers m5) with (m_layers m4).
+        rewrite Hly4, app_length, Hlen, Hcd4. cbn [length]. lia.
+      + (* tracking *)
+        intros ds sN w Hp Hen5.
+        change (m_curr_depth m5) with (S (m_curr_depth m4)). rewrite Hcd4.
+        assert (Hen3 : enabled m3).
+        { intros Ht. specialize (Hen5 Ht). change (m_lel m5) with (m_lel m4) in Hen5.
+          unfold m4 in Hen5. rewrite expand_layer_lel in Hen5. exact Hen5. }
+        assert (Hen : enabled m).
+        { intros Ht. specialize (En3 Hen3 Ht). exact En3. }
+        destruct (HT ds sN w Hp Hen) as (u & s' & Hu & Hpth). fold d in Hpth.
+        set (j := d - rd) in *.
+        pose proof Hp as (_ & Hdsl & _).
+        assert (Hj : j < length ds) by (unfold j; lia).
+        destruct (prom_prefix ds sN w j Hp Hj) as (s1 & v1 & dj & rest & h & P1 & P2 & P3 & P4 & P5 & P6).
+        assert (Hfl : length (firstn j ds) = j) by (rewrite firstn_length; lia).
+        assert (Hs1 : s1 = s').
+        { rewrite (frun_state pb _ _ _ _ _ _ P1). symmetry. apply (dpath_state _ _ _ _ _ _ _ Hpth). }
+        subst s1.
+        destruct (T3 u (firstn j ds) s') as (u' & Hu' & Hp3).
+        * change (m_next m2) with (m_next m). exact Hu.
+        * intros H1. change (m_layers m2) with (m_layers m) in H1. rewrite Hlen in H1. fold j in H1.
+          intros E. rewrite E in Hfl. simpl in Hfl. lia.
+        * exact Hen3.
+        * eapply dpath_ceq; [exact Hc2|exact Hpth].
+        * assert (Hdj : var = d_var dj).
+          { apply (var_ok_spec pb nv_static (rd + j) dj states) in P3.
+            replace (rd + j) with d in P3 by (unfold j; lia). unfold d in P3. rewrite P3 in Eov.
+            inversion Eov; reflexivity. }
+          destruct (expand_layer_track var l d m3 u' (firstn j ds) s' v1 (d_val dj) h) as (t' & Ht' & Hpt'); auto.
+          -- exists states. exact Eov.
+          -- rewrite Hfl, Ly3. change (m_layers m2) with (m_layers m). rewrite app_nth2 by lia.
+             rewrite Hlen. fold j. rewrite Nat.sub_diag. simpl. apply Lids. exact Hu'.
+          -- rewrite Hfl. unfold j. lia.
+          -- rewrite Hdj. exact P4.
+          -- rewrite Hfl. exact P5.
+          -- fold m4 in Ht', Hpt'. exists t', (transition pb s' {| d_var := var; d_val := d_val dj |}).
+             split; [exact Ht'|].
+             replace (S d - rd) with (S j) by (unfold j; lia).
+             rewrite (firstn_S_skipn j ds dj rest P2).
+             assert (Edj : dj = {| d_var := var; d_val := d_val dj |}) by (rewrite Hdj; destruct dj; reflexivity).
+             rewrite Edj at 1.
+             eapply dpath_frame; [| | |exact Hpt']; reflexivity.
+  Qed.
+
+  (* ---------------------------------------------------------------- 2l. initial state, compile *)
+  Lemma Linv_initialize c ds polls : Linv (initialize inp c ds polls).
+  Proof.
+    destruct (initialize_inv inp c ds polls) as (I1 & I2 & I3).
+    split; [|split; [|split; [|split]]].
+    - split; [exact I1|]. split; [exact I2|]. split; [exact I3|].
+      split.
+      + simpl. lia.
+      + intros eid He. simpl in He. lia.
+      + intros id eid Hid Hin. simpl in Hid. assert (id = 0) by lia. subst id. destruct Hin.
+    - simpl. apply Nat.le_refl.
+    - simpl. exact Hrd.
+    - simpl. fold root. fold rd. lia.
+    - intros ds0 sN w Hp Hen. exists 0, rs. split; [left; reflexivity|].
+      replace (m_curr_depth (initialize inp c ds polls) - rd) with 0 by (simpl; fold root; fold rd; lia).
+      simpl firstn. apply dp_nil; [simpl; lia|]. simpl. apply cov_refl.
+  Qed.
+
+  Lemma compile_post tb tb2 c ds polls m :
+    compile st_eqb inp tb tb2 c ds polls = (m, Compiled) ->
+    exists ml, m = finalize st_eqb inp tb tb2 ml /\ Sinv inp ml /\ Xs inp ml /\ Post ml.
+  Proof.
+    unfold compile. cbv zeta. intros H.
+    pose proof (layer_loop_Sinv st_eqb st_eqb_spec inp Hclean (S (S (nb_vars (ci_problem inp)))) c ds polls) as [HS HX].
+    destruct (layer_loop st_eqb inp (S (S (nb_vars (ci_problem inp)))) (initialize inp c ds polls)) as [ml e] eqn:El.
+    cbn [fst] in HS, HX. destruct e; inversion H. exists ml.
+    split; [reflexivity|]. split; [exact HS|]. split; [exact HX|].
+    eapply layer_loop_sim; [apply Linv_initialize|exact El].
+  Qed.
+
+  (* ---------------------------------------------------------------- 2m. argmax / pick *)
+  Lemma zmax_list_spec l mx : zmax_list l = Some mx -> In mx l /\ forall x, In x l -> (x <= mx)%Z.
+  Proof.
+    revert mx. induction l as [|y l IH]; intros mx H; simpl in H; [discriminate|].
+    destruct (zmax_list l) as [m0|] eqn:E.
+    - inversion H; subst mx. destruct (IH m0 eq_refl) as [I1 I2]. split.
+      + destruct (Z.max_spec y m0) as [[_ Em]|[_ Em]]; rewrite Em; [right; exact I1|left; reflexivity].
+      + intros x [<-|Hx]; [lia|]. specialize (I2 x Hx). lia.
+    - inversion H; subst mx. destruct l; [|simpl in E; destruct (zmax_list l); discriminate].
+      split; [left; reflexivity|]. intros x [<-|[]]. lia.
+  Qed.
+
+  Lemma zmax_list_some l : l <> [] -> exists mx, zmax_list l = Some mx.
+  Proof. destruct l as [|y l]; [congruence|]. intros _. simpl. destruct (zmax_list l); eexists; reflexivity. Qed.
+
+  Lemma pick_argmax_spec tb (m : mdd) ids b :
+    pick tb (argmax_candidates inp m ids) = Some b ->
+    In b ids /\ forall x, In x ids -> (n_vtop (gn m x) <= n_vtop (gn m b))%Z.
+  Proof.
+    intros Hb. apply pick_In in Hb. unfold argmax_candidates in Hb.
+    destruct (zmax_list (map (fun id => n_vtop (gn m id)) ids)) as [mx|] eqn:E; [|destruct Hb].
+    apply filter_In in Hb. destruct Hb as [Hin Heq]. apply Z.eqb_eq in Heq.
+    split; [exact Hin|]. intros x Hx. rewrite Heq.
+    apply (proj2 (zmax_list_spec _ _ E)). apply (in_map (fun id => n_vtop (gn m id))). exact Hx.
+  Qed.
+
+  Lemma pick_argmax_some tb (m : mdd) ids :
+    ids <> [] -> exists b, pick tb (argmax_candidates inp m ids) = Some b.
+  Proof.
+    intros Hne. unfold argmax_candidates.
+    destruct (zmax_list_some (map (fun id => n_vtop (gn m id)) ids)) as [mx E].
+    { destruct ids; [congruence|discriminate]. }
+    rewrite E. destruct (zmax_list_spec _ _ E) as [Hin _].
+    apply in_map_iff in Hin. destruct Hin as (x & Hx1 & Hx2).
+    set (cands := filter (fun id => (n_vtop (gn m id) =? mx)%Z) ids).
+    assert (Hc : In x cands) by (apply filter_In; split; [exact Hx2|apply Z.eqb_eq; exact Hx1]).
+    unfold pick. destruct cands as [|c0 cs] eqn:Ec; [destruct Hc|].
+    assert (Hlt : Nat.modulo tb (length (c0 :: cs)) < length (c0 :: cs)) by (apply Nat.mod_upper_bound; simpl; lia).
+    apply nth_error_Some in Hlt. destruct (nth_error (c0 :: cs) (tb mod length (c0 :: cs))) as [b|]; [|congruence].
+    exists b; reflexivity.
+  Qed.
+
+  (* ---------------------------------------------------------------- 2n. what _finalize computes *)
+  Definition hdr (m : mdd) := (m_is_exact m, m_has_ebp m, m_best m, m_best_exact m).
+
+  Lemma hdr_lel_cutset (m : mdd) k : hdr (lel_cutset m k) = hdr m.
+  Proof.
+    unfold lel_cutset. rewrite (fold_left_proj hdr) by (intros; reflexivity).
+    destruct (nth_error _ _); [|reflexivity]. unfold hdr at 1. msimpl.
+    change (hdr (fold_left (fun m0 id => upd_node m0 id (fun n => set_flags n (fl_set_above (fl_set_cutset (n_flags n) true) true))) l m) = hdr m).
+    apply (fold_left_proj hdr). intros; reflexivity.
+  Qed.
+
+  Lemma hdr_frontier_cutset (m : mdd) push : hdr (frontier_cutset inp m push) = hdr m.
+  Proof.
+    unfold frontier_cutset. apply (fold_left_proj hdr). intros a id.
+    destruct (fl_is_exact _); [reflexivity|].
+    apply (fold_left_proj hdr). intros b eid.
+    destruct (_ && _); [|reflexivity]. destruct push; reflexivity.
+  Qed.
+
+  Lemma hdr_finalize_cutset (m : mdd) : hdr (finalize_cutset inp m) = hdr m.
+  Proof.
+    unfold finalize_cutset.
+    destruct (ci_flavour inp); destruct (m_lel m); destruct (_ || _);
+      rewrite ?hdr_lel_cutset, ?hdr_frontier_cutset; reflexivity.
+  Qed.
+
+  Lemma hdr_compute_local_bounds (m : mdd) : hdr (compute_local_bounds inp m) = hdr m.
+  Proof.
+    unfold compute_local_bounds. destruct (_ && _); [|reflexivity].
+    rewrite (fold_left_proj hdr).
+    - apply (fold_left_proj hdr); intros; reflexivity.
+    - intros a id. destruct (f_marked _); [|reflexivity].
+      apply (fold_left_proj hdr); intros; reflexivity.
+  Qed.
+
+  Lemma cache_update_nocache (m : mdd) s d v e :
+    cache_update st_eqb inp m s d v e = add_log m (EvCacheUpd s d v e).
+  Proof. unfold cache_update. rewrite Hnocache. reflexivity. Qed.
+
+  Lemma hdr_maybe_update_cache (m : mdd) id : hdr (maybe_update_cache st_eqb inp m id) = hdr m.
+  Proof.
+    unfold maybe_update_cache. destruct (n_theta _); [|reflexivity].
+    destruct (f_above _); [rewrite cache_update_nocache|]; reflexivity.
+  Qed.
+
+  Lemma hdr_compute_thresholds (m : mdd) : hdr (compute_thresholds st_eqb inp m) = hdr m.
+  Proof.
+    unfold compute_thresholds. destruct (_ || _); [|reflexivity].
+    assert (Hbody : forall bk (a : mdd) id,
+      hdr (let n := gn a id in
+           if f_deleted (n_flags n) then a
+           else
+             let m0 :=
+               if negb (f_cache (n_flags n)) then
+                 let tot_rub := sat_add (n_vtop n) (n_rub n) in
+                 let m0 :=
+                   if (tot_rub <=? bk)%Z then upd_node a id (fun n0 => set_theta n0 (Some (sat_sub bk (n_rub n0))))
+                   else if f_cutset (n_flags n) then
+                     let tot_locb := sat_add (n_vtop n) (n_vbot n) in
+                     if (tot_locb <=? bk)%Z then
+                       upd_node a id (fun n0 => set_theta n0 (Some (Z.min (opt_default IMAX (n_theta n0)) (sat_sub bk (n_vbot n0)))))
+                     else upd_node a id (fun n0 => set_theta n0 (Some (n_vtop n0)))
+                   else if fl_is_exact (n_flags n) && match n_theta n with None => true | Some _ => false end then
+                     upd_node a id (fun n0 => set_theta n0 (Some IMAX))
+                   else a in
+                 maybe_update_cache st_eqb inp m0 id
+               else a in
+             match n_theta (gn m0 id) with
+             | Some my_theta =>
+                 fold_left (fun m1 eid =>
+                     let e := get_edge m1 eid in
+                     upd_node m1 (e_from e) (fun p =>
+                       set_theta p (Some (Z.min (opt_default IMAX (n_theta p)) (sat_sub my_theta (e_cost e))))))
+                   (n_inb (gn m0 id)) m0
+             | None => m0
+             end) = hdr a).
+    { intros bk a id. cbv zeta. destruct (f_deleted _); [reflexivity|].
+      match goal with |- hdr (match n_theta (get_node inp ?mm id) with _ => _ end) = _ =>
+        set (m2 := mm); assert (Hm2 : hdr m2 = hdr a) end.
+      { subst m2. destruct (negb _); [|reflexivity].
+        rewrite hdr_maybe_update_cache.
+        repeat match goal with |- context [if ?c then _ else _] => destruct c end; reflexivity. }
+      destruct (n_theta (gn m2 id)); [|exact Hm2].
+      rewrite (fold_left_proj hdr) by (intros; reflexivity). exact Hm2. }
+    match goal with |- context [match ?x with Some be => _ | None => _ end] =>
+      destruct x as [be|] end.
+    - rewrite (fold_left_proj hdr).
+      + apply (fold_left_proj hdr). intros a id.
+        match goal with |- context [if ?c then _ else _] => destruct c end; reflexivity.
+      + intros a id. apply Hbody.
+    - apply (fold_left_proj hdr). intros a id. apply Hbody.
+  Qed.
+
+  Lemma hdr_eq (m m' : mdd) : hdr m = hdr m' ->
+    m_is_exact m = m_is_exact m' /\ m_has_ebp m = m_has_ebp m' /\ m_best m = m_best m' /\
+    m_best_exact m = m_best_exact m'.
+  Proof. unfold hdr. intros H. inversion H. auto. Qed.
+
+  Lemma finalize_layers_fields (ml : mdd) :
+    m_nodes (finalize_layers inp ml) = m_nodes ml /\ m_next (finalize_layers inp ml) = m_next ml /\
+    m_lel (finalize_layers inp ml) = m_lel ml /\ m_edges (finalize_layers inp ml) = m_edges ml /\
+    m_layers (finalize_layers inp ml) =
+      match m_next ml with
+      | [] => m_layers ml
+      | _ => m_layers ml ++ [seq (m_layer_end ml) (length (m_nodes ml) - m_layer_end ml)]
+      end.
+  Proof.
+    unfold finalize_layers. cbv zeta. rewrite (not_pooled inp Hclean).
+    destruct (m_next ml) eqn:E; repeat split; auto.
+  Qed.
+
+  Lemma finalize_hdr tb tb2 (ml : mdd) :
+    let m := finalize st_eqb inp tb tb2 ml in
+    let m1 := finalize_layers inp ml in
+    m_is_exact m = (match m_lel ml with None => true | Some _ => false end) /\
+    (m_has_ebp m = true -> ci_type inp = Relaxed) /\
+    m_best m = pick tb (argmax_candidates inp m1 (m_next ml)) /\
+    m_best_exact m =
+      (if m_has_ebp m then m_best m
+       else pick tb2 (argmax_candidates inp m1 (filter (fun id => fl_is_exact (n_flags (gn m1 id))) (m_next ml)))).
+  Proof.
+    cbv zeta. unfold finalize.
+    destruct (finalize_layers_fields ml) as (F1 & F2 & F3 & F4 & F5).
+    set (m1 := finalize_layers inp ml) in *.
+    set (m2 := find_best_node inp tb tb2 m1).
+    set (m3 := finalize_exact inp m2).
+    assert (Hh : hdr (compute_thresholds st_eqb inp (compute_local_bounds inp (finalize_cutset inp m3))) = hdr m3).
+    { rewrite hdr_compute_thresholds, hdr_compute_local_bounds, hdr_finalize_cutset. reflexivity. }
+    apply hdr_eq in Hh. destruct Hh as (H1 & H2 & H3 & H4).
+    rewrite H1, H2, H3, H4. clear H1 H2 H3 H4.
+    set (ebp := is_relaxed_ct (ci_type inp) && has_exact_best_path inp (S (length (m_nodes m2))) m2 (m_best m2)).
+    assert (A1 : m_is_exact m3 = match m_lel m2 with None => true | Some _ => false end).
+    { unfold m3, finalize_exact. cbv zeta. cbn [m_is_exact]. rewrite (not_pooled inp Hclean). reflexivity. }
+    assert (A2 : m_has_ebp m3 = ebp) by reflexivity.
+    assert (A3 : m_best m3 = m_best m2) by reflexivity.
+    assert (A4 : m_best_exact m3 = if ebp then m_best m2 else m_best_exact m2) by reflexivity.
+    assert (B1 : m_best m2 = pick tb (argmax_candidates inp m1 (m_next m1))) by reflexivity.
+    assert (B2 : m_best_exact m2 = pick tb2 (argmax_candidates inp m1
+                   (filter (fun id => fl_is_exact (n_flags (gn m1 id))) (m_next m1)))) by reflexivity.
+    rewrite A1, A2, A3, A4, B1, B2, F2. change (m_lel m2) with (m_lel m1). rewrite F3.
+    split; [reflexivity|]. split; [|split; reflexivity].
+    intros Hb. unfold ebp in Hb. apply andb_true_iff in Hb. destruct Hb as [Hb _].
+    destruct (ci_type inp); simpl in Hb; try discriminate. reflexivity.
+  Qed.
+
+  Lemma gn_finalize_layers (ml : mdd) x : gn (finalize_layers inp ml) x = gn ml x.
+  Proof. apply gn_nodes_eq. apply finalize_layers_fields. Qed.
+
+  (* the compiled diagram versus the diagram at the end of the loop *)
+  Lemma finalize_core tb tb2 (ml : mdd) x :
+    Sinv inp ml -> Xs inp ml ->
+    core_eq (gn ml x) (gn (finalize st_eqb inp tb tb2 ml) x).
+  Proof.
+    intros HS HX. destruct (finalize_spec st_eqb inp Hclean tb tb2 ml HS HX) as ((_ & _ & _ & A4) & _). apply A4.
+  Qed.
+
+  (* ================================================================== 3. the semantic theorems *)
+  Definition vstar : option Z := oadd rv (H pb rd rs).
+
+  Lemma vstar_prom o : vstar = Some o -> (lb < o)%Z -> exists ds sN, prom ds sN o.
+  Proof.
+    unfold vstar. intros Hv Hlb. destruct (H pb rd rs) as [h|] eqn:Eh; [|discriminate].
+    simpl in Hv. inversion Hv; subst o.
+    destruct (H_attained pb nv_static nv_some nv_none (N - rd) rd rs rv h eq_refl Hrd Eh) as (ds & sN & Hr & Hl).
+    exists ds, sN. split; [exact Hr|]. split; [exact Hl|exact Hlb].
+  Qed.
+
+  Lemma vstar_upper o ds s' v' :
+    vstar = Some o -> frn rd rs rv ds = Some (s', v') -> rd + length ds = N -> (v' <= o)%Z.
+  Proof.
+    unfold vstar. intros Hv Hr Hl.
+    destruct (frun_le_H pb nv_static nv_none ds rd rs rv s' v' Hl Hr) as (h & Hh & Hle).
+    rewrite Hh in Hv. simpl in Hv. inversion Hv; subst o. exact Hle.
+  Qed.
+
+  Lemma Sinv_root_vtop (m : mdd) : Sinv inp m -> (rv <= n_vtop (gn m 0))%Z.
+  Proof. intros HS. destruct (S_root _ _ HS) as (_ & _ & r3 & _). fold root in r3. unfold rv. lia. Qed.
+
+  Lemma track_terminal (ml : mdd) o :
+    Sinv inp ml -> Post ml -> enabled ml -> vstar = Some o -> (lb < o)%Z ->
+    exists ds sN u s', prom ds sN o /\ Einv ml /\ length (m_layers ml) = N - rd /\ In u (m_next ml) /\
+      m_layer_end ml <= u < length (m_nodes ml) /\
+      dpath ml 0 0 rs ds u s' /\ (o <= n_vtop (gn ml u))%Z.
+  Proof.
+    intros HS (_ & HP) Hen Hv Hlb.
+    destruct (vstar_prom o Hv Hlb) as (ds & sN & Hp).
+    destruct (HP ds sN o Hp Hen) as (HE & Hlen & u & s' & Hu & Hr & Hpth).
+    exists ds, sN, u, s'. repeat split; auto; try lia.
+    destruct Hp as (Hrun & _ & _).
+    apply (dpath_vtop ml ds u s' HE Hpth (Sinv_root_vtop ml HS) _ _ Hrun).
+  Qed.
+
+  (* a clean chain is a feasible run from the root, and the node's value is the exact value of that run *)
+  Lemma clean_chain_frun (m : mdd) id :
+    Sinv inp m -> clean_chain inp m id -> id < length (m_nodes m) ->
+    exists ds, frn rd rs rv ds = Some (n_state (gn m id), n_vtop (gn m id)) /\
+               n_depth (gn m id) = rd + length ds.
+  Proof.
+    intros HS Hcc. induction Hcc as [Hr Hb|id eid Hr Hb Hcc IH]; intros Hid.
+    - destruct (S_root _ _ HS) as (r1 & r2 & r3 & r4 & r5). exists []. simpl.
+      rewrite r2, r3, r4. fold root. split; [reflexivity|unfold rd; lia].
+    - destruct (S_nodes _ _ HS id Hid) as [_ Hok]. specialize (Hok Hr). rewrite Hb in Hok.
+      destruct Hok as (b1 & b2 & b3 & b4 & b5 & b6 & b7 & b8 & b9).
+      set (e := get_edge m eid) in *. set (p := e_from e) in *.
+      destruct IH as (ds & Hrun & Hdep); [lia|].
+      exists (ds ++ [e_dec e]).
+      assert (Hvar : var_ok pb (rd + length ds) (e_dec e) = true).
+      { destruct (S_var _ _ HS eid b1) as [st Hst]. fold e in Hst. fold p in Hst. rewrite Hdep in Hst.
+        apply (var_ok_spec pb nv_static _ _ st). exact Hst. }
+      assert (Hrun' : frn rd rs rv (ds ++ [e_dec e]) =
+                Some (n_state (gn m id), (n_vtop (gn m p) + e_cost e)%Z)).
+      { rewrite (frun_snoc pb rd rs rv ds (e_dec e) _ _ Hrun). rewrite Hvar. fold pb in b6. rewrite b6. simpl.
+        fold pb in b4, b5. rewrite <- b4, <- b5. reflexivity. }
+      split.
+      + rewrite Hrun'. f_equal. f_equal. rewrite b7. unfold sat_add. rewrite clampZ_id; [reflexivity|].
+        eapply guard_isize; eauto.
+      + rewrite b8, Hdep, app_length. simpl. lia.
+  Qed.
+
+  Lemma exact_terminal_le (m : mdd) b o :
+    Sinv inp m -> clean_chain inp m b -> b < length (m_nodes m) -> n_depth (gn m b) = N ->
+    vstar = Some o -> (n_vtop (gn m b) <= o)%Z.
+  Proof.
+    intros HS Hcc Hb Hd Hv. destruct (clean_chain_frun m b HS Hcc Hb) as (ds & Hr & Hdep).
+    eapply vstar_upper; eauto. lia.
   Qed.
